@@ -6,6 +6,11 @@
 //! (i)   pure: all 256 bytes through `BlockState` decode -> encode, every state of the encoding's
 //!       domain through encode -> decode, injectivity; and every state through the real
 //!       `Block::set_state` / `get_state` on a real block.
+//! (iv)  (listed here, run second) the real `Line::mark_lines_for_object` for every placement of
+//!       an object relative to line boundaries (start at every word of two adjacent lines, sizes
+//!       of 1 word .. 2 lines + 1 word) under two bindings of the `UnitVM` family: object
+//!       reference = object start, and object reference = object start + 8 (header word before
+//!       the reference): every line the object's extent touches must carry the current mark.
 //! (ii)  an explicit-state model of ONE tracked line ("component"): (line_mark_state,
 //!       line_unavail_state, the line's mark byte, occupancy); per collection the choice
 //!       kind in {full, nursery (StickyImmix)} x {dead, live, live+pinned}.  BFS to closure
@@ -38,7 +43,8 @@ use crate::common::{catch, emit_child_result, last_panic_location, machinery_fai
 use crate::shadowvm::{install_crash_handlers, set_current_case, worker_panic_to_crash, BootCfg, Sem, World};
 use crate::vm::{VerifVM, VmEvent, RECORD_COPIES};
 use mmtk::util::verif::c34 as hk;
-use mmtk::util::Address;
+use mmtk::util::linear_scan::Region;
+use mmtk::util::{Address, ObjectReference};
 use serde_json::{json, Value};
 use std::collections::{BTreeMap, BTreeSet, VecDeque};
 
@@ -125,6 +131,74 @@ fn part_blockstate(run: &mut Run) {
     run.add("blockstate_states", states.len() as u64);
     run.add("evaluations", evals);
     run.sample(json!({"part": "blockstate", "byte": 7, "decoded": format!("{:?}", hk::block_state_decode(7)), "re_encoded": hk::block_state_encode(hk::block_state_decode(7))}));
+}
+
+// =============================================================================================
+// (iv) line marking for every placement of an object relative to line boundaries, under a binding
+// whose object reference is the object start (offset 0) and under one whose reference lies 8 bytes
+// past it ("every line spanned by a live object is marked")
+
+const LM_BASE: usize = 0x2_4000_0000; // block-aligned, metadata only: the data is never touched
+const LM_LINES: usize = 8;
+
+fn lm_run<VM: mmtk::vm::VMBinding>(run: &mut Run, binding: &str, off: usize, evals: &mut u64, nontrivial: &mut u64) {
+    let lb = hk::LINE_BYTES;
+    let sizes: Vec<usize> = (8..=lb + 24).step_by(8).chain([2 * lb - 8, 2 * lb, 2 * lb + 8]).collect();
+    for state in [hk::RESET_MARK_STATE, hk::MAX_MARK_STATE] {
+        // object starts: every word of lines 1 and 2 (so the object may begin in the last word
+        // of a line, end exactly on a boundary, and span up to four lines)
+        for start in (LM_BASE + lb..LM_BASE + 3 * lb).step_by(8) {
+            for &size in &sizes {
+                let lines: Vec<hk::Line> = (0..LM_LINES).map(|i| hk::Line::from_unaligned_address(unsafe { Address::from_usize(LM_BASE + i * lb) })).collect();
+                let other = if state == hk::RESET_MARK_STATE { hk::MAX_MARK_STATE } else { state - 1 };
+                for l in &lines {
+                    l.mark(other);
+                }
+                crate::unitvm::UNIT_OBJECT_SIZE.with(|c| c.set(size));
+                let object = ObjectReference::from_raw_address(unsafe { Address::from_usize(start + off) }).unwrap();
+                let r = catch(|| hk::Line::mark_lines_for_object::<VM>(object, state));
+                *evals += 1;
+                let case = json!({"mode": "linemark", "binding": binding, "start": start - LM_BASE, "size": size, "state": state});
+                if let Err(p) = r {
+                    run.violation(format!("lines:mark_lines_for_object:panic:{}", binding), format!("mark_lines_for_object({} binding, object start = window + {}, size {}) panicked: {}", binding, start - LM_BASE, size, p), case);
+                    return;
+                }
+                let first = (start - LM_BASE) / lb;
+                let last = (start + size - 1 - LM_BASE) / lb;
+                if (start + off - LM_BASE) / lb != first {
+                    *nontrivial += 1;
+                }
+                for i in first..=last {
+                    if !lines[i].is_marked(state) {
+                        run.violation(
+                            format!("lines:live_line_not_marked:{}:{}", binding, if i == first { "first_line" } else if i == last { "last_line" } else { "inner_line" }),
+                            format!("Line::mark_lines_for_object::<{} binding> for the object [window + {}, window + {}) (reference at window + {}, {} bytes) left line {} of the window unmarked although the object spans lines {}..={}", binding, start - LM_BASE, start - LM_BASE + size, start + off - LM_BASE, size, i, first, last),
+                            case,
+                        );
+                        return;
+                    }
+                }
+            }
+        }
+    }
+}
+
+fn part_line_marking(run: &mut Run) {
+    use mmtk::util::metadata::side_metadata::verif_hooks;
+    static MAPPED: std::sync::Once = std::sync::Once::new();
+    crate::props::c20::init_side_metadata();
+    MAPPED.call_once(|| {
+        if !verif_hooks::map_metadata(&[], &[hk::Line::MARK_TABLE], unsafe { Address::from_usize(LM_BASE) }, hk::BLOCK_BYTES) {
+            machinery_failure("cannot map the line mark table for the line-marking window");
+        }
+    });
+    let (mut evals, mut nontrivial) = (0u64, 0u64);
+    lm_run::<crate::unitvm::UnitVM<{ crate::unitvm::P_SIZED }>>(run, "ref_offset0", 0, &mut evals, &mut nontrivial);
+    lm_run::<crate::unitvm::UnitVM<{ crate::unitvm::P_REF_OFFSET }>>(run, "ref_offset8", crate::unitvm::REF_OFFSET, &mut evals, &mut nontrivial);
+    run.add("evaluations", evals);
+    run.add("line_marking_cases", evals);
+    run.add("line_marking_cases_reference_in_another_line_than_object_start", nontrivial);
+    run.sample(json!({"part": "linemark", "bindings": ["object reference = object start", "object reference = object start + 8"], "object_starts": "every word of two adjacent lines", "sizes": "8..=LINE+24 step 8, 2*LINE-8, 2*LINE, 2*LINE+8", "cases": evals, "reference_in_next_line": nontrivial}));
 }
 
 // =============================================================================================
@@ -1569,6 +1643,7 @@ fn absorb(run: &mut Run, names: &[String], results: Vec<Value>) {
 
 pub fn run(run: &mut Run) {
     part_blockstate(run);
+    part_line_marking(run);
     // the model, closed, for both kind alphabets
     let g_immix = explore(&[Kind::Full]);
     let g_sticky = explore(&[Kind::Full, Kind::Nursery]);
@@ -1606,6 +1681,10 @@ pub fn run(run: &mut Run) {
 pub fn replay(case: &Value, run: &mut Run) {
     if case["mode"].as_str() == Some("blockstate") {
         part_blockstate(run);
+        return;
+    }
+    if case["mode"].as_str() == Some("linemark") {
+        part_line_marking(run);
         return;
     }
     let mode = case["mode"].as_str().unwrap_or("conf");
